@@ -54,7 +54,14 @@ func isAlnum(c byte) bool {
 
 var vpPwLens = []int{0, 3, 65, 64}
 
+// vpPwLen: the length of the arbitrary password: below and above the 64-byte HMAC block (scrypt
+// sets normalise longer keys by SHA-256); the thorough tier of the long-password unit adds the
+// empty and the exactly-64-byte password.
 func vpPwLen(label string) int {
+	return []int{3, 65}[vpChoose(label, 2)]
+}
+
+func vpPwLenWide(label string) int {
 	if vpTier() == 0 {
 		return []int{3, 65}[vpChoose(label, 2)]
 	}
